@@ -44,14 +44,14 @@ func init() {
 }
 
 type timerRoles struct {
-	ctrl                            *types.Named
-	mutex, heapF, workers, wake     *types.Var
-	futuresT, futureT               *types.Named
-	fF, fTime, fIdx                 *types.Var
-	callFn, add, cancel, worker     *ssa.Function
-	notify, cancelM                 *ssa.Function
-	swap, push, pop, less, lenM     *ssa.Function
-	ctrlMethods, heapMethods, all   []*ssa.Function
+	ctrl                          *types.Named
+	mutex, heapF, workers, wake   *types.Var
+	futuresT, futureT             *types.Named
+	fF, fTime, fIdx               *types.Var
+	callFn, add, cancel, worker   *ssa.Function
+	notify, cancelM               *ssa.Function
+	swap, push, pop, less, lenM   *ssa.Function
+	ctrlMethods, heapMethods, all []*ssa.Function
 }
 
 func resolveTimerRoles(c *Ctx) *timerRoles {
@@ -670,7 +670,10 @@ func (c *Ctx) timerLockset(r *timerRoles, rule string) {
 	c.R.Floor(rule, 12)
 }
 
-func runC13(c *Ctx) {
+func runC13(c *Ctx) { timerLiveRules(c, "C13.R") }
+
+// timerLiveRules runs the liveness-shape rules of the timer package under the prefix pfx (C13.R, C05.U).
+func timerLiveRules(c *Ctx, pfx string) {
 	r := resolveTimerRoles(c)
 	isSpawn := func(in ssa.Instruction) bool {
 		g, ok := in.(*ssa.Go)
@@ -687,12 +690,12 @@ func runC13(c *Ctx) {
 				return
 			}
 			n++
-			c.NoPath("C13.R1", "after Push: start a worker or wake one", in, ir.Query{Fn: fn, From: in,
+			c.NoPath(pfx+"1", "after Push: start a worker or wake one", in, ir.Query{Fn: fn, From: in,
 				Block: func(x ssa.Instruction) bool { return isSpawn(x) || isNotify(x) }, Target: ir.IsExit},
 				"a future is queued and nobody is told: a sleeping worker keeps sleeping towards a later deadline (or no worker exists)")
 		})
 		if n == 0 {
-			c.Decide("C13.R1", fn, "add pushes onto the heap", nil, false, "add does not call heap.Push")
+			c.Decide(pfx+"1", fn, "add pushes onto the heap", nil, false, "add does not call heap.Push")
 		}
 		// the spawn branch is taken exactly when no worker exists: spawn dominated by workers == 0; notify by workers != 0 (or unconditional)
 		ir.Instrs(fn, func(in ssa.Instruction) {
@@ -702,7 +705,7 @@ func runC13(c *Ctx) {
 					k, isC := ir.ConstInt(cm.Y)
 					return isW && isC && ((cm.Op == token.EQL && k == 0) || (cm.Op == token.LSS && k == 1) || (cm.Op == token.LEQ && k == 0))
 				})
-				c.Decide("C13.R1", fn, "worker started when none exists", in, ok, "add starts a worker on an edge that is not 'no worker exists'")
+				c.Decide(pfx+"1", fn, "worker started when none exists", in, ok, "add starts a worker on an edge that is not 'no worker exists'")
 			}
 		})
 	}
@@ -728,7 +731,7 @@ func runC13(c *Ctx) {
 						ok = false
 					}
 				}
-				c.Decide("C13.R2", fn, "go worker() preceded by workers++ in the same critical section", in, ok, "a worker is started without being counted under the lock: the pool size drifts (no worker is started although none exists, or too many)")
+				c.Decide(pfx+"2", fn, "go worker() preceded by workers++ in the same critical section", in, ok, "a worker is started without being counted under the lock: the pool size drifts (no worker is started although none exists, or too many)")
 			})
 		}
 		fn := r.worker
@@ -736,18 +739,18 @@ func runC13(c *Ctx) {
 		isDec := func(x ssa.Instruction) bool { _, ok := isFieldDelta(x, r.workers, -1); return ok }
 		for _, ret := range ir.Returns(fn) {
 			ret := ret
-			c.NoPath("C13.R2", "worker return preceded by workers--", ret, ir.Query{Fn: fn, Block: isDec, Target: func(x ssa.Instruction) bool { return x == ssa.Instruction(ret) }},
+			c.NoPath(pfx+"2", "worker return preceded by workers--", ret, ir.Query{Fn: fn, Block: isDec, Target: func(x ssa.Instruction) bool { return x == ssa.Instruction(ret) }},
 				"the worker exits without deregistering: the count says a worker exists, so add never starts one again and pending futures never fire")
 		}
 		ir.Instrs(fn, func(in ssa.Instruction) {
 			if !isDec(in) {
 				return
 			}
-			c.Decide("C13.R2", fn, "workers-- under the lock", in, r.mutexHeld(ls, in), "the worker count is decremented without the lock")
-			c.NoPath("C13.R2", "deregistered worker does not continue", in, ir.Query{Fn: fn, From: in, Target: func(x ssa.Instruction) bool { return r.isLock(x) || isSpawn(x) }},
+			c.Decide(pfx+"2", fn, "workers-- under the lock", in, r.mutexHeld(ls, in), "the worker count is decremented without the lock")
+			c.NoPath(pfx+"2", "deregistered worker does not continue", in, ir.Query{Fn: fn, From: in, Target: func(x ssa.Instruction) bool { return r.isLock(x) || isSpawn(x) }},
 				"a worker that deregistered itself keeps running")
 		})
-		c.R.Floor("C13.R2", 6)
+		c.R.Floor(pfx+"2", 6)
 	}
 
 	// R3 callbacks run unlocked
@@ -767,10 +770,10 @@ func runC13(c *Ctx) {
 				return
 			}
 			n++
-			c.Decide("C13.R3", fn, "callback invoked with the lock released", in, len(ls.Any(in)) == 0, "a callback runs while the package lock is held: a callback that schedules or cancels (lease renewal does) deadlocks, and no other future can fire meanwhile")
+			c.Decide(pfx+"3", fn, "callback invoked with the lock released", in, len(ls.Any(in)) == 0, "a callback runs while the package lock is held: a callback that schedules or cancels (lease renewal does) deadlocks, and no other future can fire meanwhile")
 		})
 		if n == 0 {
-			c.Decide("C13.R3", fn, "callback invoked with the lock released", nil, false, "the worker invokes no callback")
+			c.Decide(pfx+"3", fn, "callback invoked with the lock released", nil, false, "the worker invokes no callback")
 		}
 	}
 
@@ -796,7 +799,7 @@ func runC13(c *Ctx) {
 				}
 			}
 		})
-		c.Decide("C13.R4", fn, "wake-up send never blocks", nil, found && ok, "the wake-up send can block: add/cancel would hang under the lock when no worker is receiving")
+		c.Decide(pfx+"4", fn, "wake-up send never blocks", nil, found && ok, "the wake-up send can block: add/cancel would hang under the lock when no worker is receiving")
 		// capacity
 		capOK := false
 		for _, f := range r.all {
@@ -817,7 +820,7 @@ func runC13(c *Ctx) {
 				}
 			})
 		}
-		c.Decide("C13.R4", fn, "wake channel is buffered", nil, capOK, "the wake channel has no buffer: a wake-up sent while the worker is between unlock and select is lost and a near deadline is slept through")
+		c.Decide(pfx+"4", fn, "wake channel is buffered", nil, capOK, "the wake channel has no buffer: a wake-up sent while the worker is between unlock and select is lost and a near deadline is slept through")
 	}
 
 	// R5 comparator
@@ -845,7 +848,7 @@ func runC13(c *Ctx) {
 				ok = true
 			}
 		}
-		c.Decide("C13.R5", fn, "Less = elem[i].fireTime.Before(elem[j].fireTime)", nil, ok, "the heap order is not 'earliest fire time first': the worker sleeps towards the wrong deadline and earlier futures fire late")
+		c.Decide(pfx+"5", fn, "Less = elem[i].fireTime.Before(elem[j].fireTime)", nil, ok, "the heap order is not 'earliest fire time first': the worker sleeps towards the wrong deadline and earlier futures fire late")
 	}
 
 	// R6 re-read under lock after every wake-up; block only unlocked
@@ -859,7 +862,7 @@ func runC13(c *Ctx) {
 				return
 			}
 			n++
-			c.Decide("C13.R6", fn, "worker sleeps with the lock released", in, len(ls.Any(in)) == 0, "the worker blocks in select while holding the lock")
+			c.Decide(pfx+"6", fn, "worker sleeps with the lock released", in, len(ls.Any(in)) == 0, "the worker blocks in select while holding the lock")
 			// the select listens on the wake channel
 			listens := false
 			for _, st := range sel.States {
@@ -869,15 +872,15 @@ func runC13(c *Ctx) {
 					}
 				}
 			}
-			c.Decide("C13.R6", fn, "sleeping worker listens on the wake channel", in, listens, "the sleeping worker does not listen on the wake channel: a nearer deadline queued meanwhile is slept through")
-			c.NoPath("C13.R6", "heap re-read under the lock after waking", in, ir.Query{Fn: fn, From: in, Block: r.isLock,
+			c.Decide(pfx+"6", fn, "sleeping worker listens on the wake channel", in, listens, "the sleeping worker does not listen on the wake channel: a nearer deadline queued meanwhile is slept through")
+			c.NoPath(pfx+"6", "heap re-read under the lock after waking", in, ir.Query{Fn: fn, From: in, Block: r.isLock,
 				Target: func(x ssa.Instruction) bool {
 					s2, ok := x.(*ssa.Select)
 					return ok && s2.Blocking
 				}}, "the worker goes back to sleep without re-reading the heap under the lock")
 		})
 		if n == 0 {
-			c.Decide("C13.R6", fn, "worker sleeps in a select", nil, false, "the worker has no blocking select")
+			c.Decide(pfx+"6", fn, "worker sleeps in a select", nil, false, "the worker has no blocking select")
 		}
 	}
 	c.Saw(r.add, r.worker, r.notify, r.less)
